@@ -163,16 +163,16 @@ def bare_retry(crate, meta, failed, cases_by_id, log):
     log(f"bare retry: {len(ids)} cases, {sum(1 for i in ids if not failed[i]['bare_ok'])} fail bare")
 
 
-def run_bin(exe, script, trace, timeout=600, runner=None):
+def run_bin(exe, script, trace, timeout=600, runner=None, cwd=None, env=None):
     """run one corpus binary to completion, restarting after aborts. returns number of aborts"""
     if os.path.exists(trace):
         os.remove(trace)
     resume, aborts = None, 0
     while True:
-        args = (runner or []) + [exe, script, trace] + ([str(resume[0]), str(resume[1])] if resume else [])
+        args = (runner or [exe]) + [script, trace] + ([str(resume[0]), str(resume[1])] if resume else [])
         try:
             p = subprocess.run(args, stdout=subprocess.PIPE, stderr=subprocess.PIPE, text=True, timeout=timeout, errors="replace",
-                               env=dict(os.environ, RUST_BACKTRACE="0"))
+                               env=dict(env or os.environ, RUST_BACKTRACE="0"), cwd=cwd)
             rc, err = p.returncode, p.stderr
         except subprocess.TimeoutExpired as e:
             rc, err = -9, "timeout: " + ((e.stderr or b"").decode("utf8", "replace") if isinstance(e.stderr, bytes) else (e.stderr or ""))
@@ -188,7 +188,7 @@ def run_bin(exe, script, trace, timeout=600, runner=None):
         m = re.search(r'"case":(\d+),"step":(\d+)', tail)
         if not m:
             raise ToolError(f"{exe}: cannot parse dangling event {tail!r}")
-        msg = [l for l in err.splitlines() if l.strip()][:3]
+        msg = [l for l in err.splitlines() if l.strip() and not l.lstrip().startswith(("Compiling", "Finished", "Running", "warning"))][:3]
         # rustc's UB checks (debug builds) and Miri report undefined behaviour and abort; any other
         # death (allocation failure, stack overflow, timeout) is an abnormal result but not UB
         ubmarks = ("unsafe precondition(s) violated", "trying to construct an enum from an invalid value",
@@ -252,6 +252,7 @@ def assemble(crate, meta, failed, outdir, max_events=40000):
                     state["n"] += 1
                     shards[-1]["cases"] += 1
                 elif c["id"] in segs:
+                    shards[-1].setdefault("first_line", {})[c["id"]] = state["n"] + 1
                     # ref = line (in this shard) of the first event of this group with the same sig
                     for line in segs[c["id"]]:
                         state["n"] += 1
@@ -264,6 +265,26 @@ def assemble(crate, meta, failed, outdir, max_events=40000):
     state["f"].close()
     shards[-1]["events"] = state["n"]
     return [s for s in shards if s["events"] > 0]
+
+
+def miri_run(crate, meta, outdir, log=print, jobs=8):
+    """execute every binary of a (small) corpus crate under Miri; returns (shards, aborts).  A case that does not
+    build under Miri is a tool error: the Miri corpus consists of shapes that the main corpus has already built."""
+    env = cargo_env()
+    env["CARGO_TARGET_DIR"] = os.path.join(WORK, "target-miri")
+    env["MIRIFLAGS"] = "-Zmiri-disable-isolation"
+    os.makedirs(outdir, exist_ok=True)
+    t0 = time.time()
+    # build once (first binary), then run all in parallel
+    def one(b):
+        return run_bin(None, os.path.join(crate, b["script"]), os.path.join(outdir, b["name"] + ".raw"), timeout=1500,
+                       runner=["cargo", "+nightly", "miri", "run", "--offline", "-q", "--bin", b["name"], "--"], cwd=crate, env=env)
+    first = one(meta["bins"][0])
+    with ThreadPoolExecutor(jobs) as ex:
+        aborts = first + sum(ex.map(one, meta["bins"][1:]))
+    log(f"miri: ran {len(meta['bins'])} bins in {time.time() - t0:.1f}s, {aborts} aborts")
+    shards = assemble(crate, meta, {}, outdir)
+    return shards, aborts
 
 
 def build_and_run(crate, meta, cases_by_id, outdir, log=print, jobs=16):
